@@ -240,6 +240,58 @@ func c13DRKey(r *ev.Run) {
 			r.Sample(w)
 		}
 	}
+	// key service down: the listener cannot obtain the key. It serves such requests like requests
+	// without an authenticator (authentication is opportunistic on the server side); what it must
+	// not do is answer with an authenticator that does not verify under the requester's key.
+	if r.Only() == "" {
+		d.SetFailing(true)
+		freshIA, _ := addr.ParseIA("3-ff00:0:333")
+		for i := 0; i < 12; i++ {
+			x := c13Ident{c05LIA, freshIA + addr.IA(i), srv, cli} // identities never seen: nothing cached
+			now := awayFromBoundary()
+			own := keyOf(int32(scion.DRKeyProtocolTS), x, now)
+			tx := peer.UniqueTime64()
+			p := &peer.SCIONPkt{SrcIA: x.cliIA, DstIA: x.srvIA, SrcHost: x.cliHost, DstHost: x.srvHost, SrcPort: uc.Local().Port(), DstPort: 10123,
+				Path: peer.SCIONPath(rng, 2, 2), Payload: peer.NTPRequest(tx), FlowID: 5}
+			p.E2E = []*slayers.EndToEndOption{peer.NewAuthOption(c13SPIClient, 0)}
+			data, err := peer.SignPkt(p, own)
+			if err != nil {
+				continue
+			}
+			if i%2 == 1 {
+				data[len(data)-48+2] ^= 4 // the MAC no longer verifies
+			}
+			replies, ok := exchange(data)
+			r.Eval(1)
+			if !ok {
+				if !tgt.Alive() {
+					first, frame := tgt.ExitInfo()
+					r.Violation("scion-listener|panic:"+c08Sig(frame)+"|authenticated request while the key service is down", fmt.Sprintf("kd%d", i), map[string]any{"panic": first, "request": ev.Hex(data)})
+					return
+				}
+				r.Inconclusive("sentinel unanswered in the C13 DRKey leg (key service down)")
+				return
+			}
+			served := false
+			for _, dg := range replies {
+				if peer.NTPOrigin(scionUnwrap(dg.Data)) != tx {
+					continue
+				}
+				served = true
+				if ps, err := peer.ParseSCION(dg.Data); err == nil && ps.HasE2E {
+					if opt, err := ps.E2E.FindOption(slayers.OptTypeAuthenticator); err == nil && len(opt.OptData) == peer.AuthOptDataLen {
+						mac, err := peer.ComputeMAC(own, opt, &ps.SCION, slayers.L4UDP, ps.L4Bytes)
+						if err != nil || !bytes.Equal(mac, opt.OptData[12:]) {
+							r.Violation("scion-listener|wrong-reply:reply carries an authenticator that does not verify under the host-to-host key|key service down", fmt.Sprintf("kd%d", i),
+								map[string]any{"request": ev.Hex(data), "reply": ev.Hex(dg.Data)})
+						}
+					}
+				}
+			}
+			r.Class(fmt.Sprintf("drkey:key service down: request with authenticator served without authentication=%v (not judged: opportunistic server-side authentication)", served))
+		}
+		d.SetFailing(false)
+	}
 	ha, hh := d.Counts()
 	r.Set("drkey_daemon_host_as_requests", ha)
 	r.Set("drkey_daemon_host_host_requests", hh)
